@@ -470,7 +470,7 @@ func lenLowerBound(x ssa.Value, at ssa.Instruction) (int64, bool) {
 				return false
 			}
 			bi, ok := c.Call.Value.(*ssa.Builtin)
-			return ok && bi.Name() == "len" && len(c.Call.Args) == 1 && strip(c.Call.Args[0]) == strip(x)
+			return ok && bi.Name() == "len" && len(c.Call.Args) == 1 && (strip(c.Call.Args[0]) == strip(x) || sameFieldLoad(c.Call.Args[0], x))
 		}
 		var k int64
 		var op token.Token
@@ -1220,4 +1220,34 @@ func sliceAfterMatchParam(p *Prog, s *ssa.Slice) (bool, string) {
 		}
 	}
 	return true, fmt.Sprintf("(iii') at each of the %d call sites S[len(M[0])+%d:] with M a start-anchored match of S on the edge len(S) != len(M[0])", len(sites), cst)
+}
+
+
+// sameFieldLoad: a and b are two loads of the same field path of the same
+// base value, with no store to that field in the function (the line field
+// of the per-line processor object, read twice).
+func sameFieldLoad(a, b ssa.Value) bool {
+	la, ok1 := strip(a).(*ssa.UnOp)
+	lb, ok2 := strip(b).(*ssa.UnOp)
+	if !ok1 || !ok2 || la.Op != token.MUL || lb.Op != token.MUL {
+		return false
+	}
+	fa, ok1 := la.X.(*ssa.FieldAddr)
+	fb, ok2 := lb.X.(*ssa.FieldAddr)
+	if !ok1 || !ok2 || fa.Field != fb.Field || fa.X != fb.X {
+		return false
+	}
+	if _, isPrm := fa.X.(*ssa.Parameter); !isPrm {
+		return false
+	}
+	// no store to that field of that object in the function
+	clean := true
+	allInstrs(la.Parent(), func(in ssa.Instruction) {
+		if st, ok := in.(*ssa.Store); ok {
+			if f2, ok := st.Addr.(*ssa.FieldAddr); ok && f2.Field == fa.Field && f2.X == fa.X {
+				clean = false
+			}
+		}
+	})
+	return clean
 }
